@@ -705,10 +705,19 @@ func c05DiscriminatorValues(c *Ctx, rid string) {
 	}
 	got := []string{}
 	if st, ok := run.Result.(*VStruct); ok {
-		if vl, ok := st.Fields["Variants"].(VList); ok {
+		// by role, not by field name: the list member holds the variants, the string member of a variant its value
+		for _, k := range sortedKeys(st.Fields) {
+			vl, ok := st.Fields[k].(VList)
+			if !ok {
+				continue
+			}
 			for _, v := range vl.Elems {
 				if vs, ok := v.(*VStruct); ok {
-					got = append(got, valText(vs.Fields["DiscriminatorVal"]))
+					for _, fk := range sortedKeys(vs.Fields) {
+						if sv, ok := vs.Fields[fk].(VStr); ok {
+							got = append(got, valText(sv))
+						}
+					}
 				}
 			}
 		}
